@@ -565,6 +565,24 @@ func Check(tier, id string) int {
 			continue
 		}
 		path, min, err := minimiseAndConfirm(p, rec, bins, tier)
+		if err != nil && !strings.HasPrefix(c, "crash/") {
+			// The shortest record of the class did not reproduce on its own.
+			// A run can inherit state from earlier runs of its worker
+			// process when the code under test keeps package-level state
+			// (wave i, C13-i3: a package-level semaphore whose slots leak
+			// over several runs); such a record is no replay file. Other
+			// runs of the class may be self-contained - the longest
+			// histories are the likeliest - so a few of them are tried
+			// before the class is given up as unconfirmed.
+			for k := 0; k < 4 && k < len(recs)-1 && err != nil; k++ {
+				alt := recs[len(recs)-1-k]
+				var err2 error
+				if path, min, err2 = minimiseAndConfirm(p, alt, bins, tier); err2 == nil {
+					err = nil
+					rec = alt
+				}
+			}
+		}
 		if err != nil {
 			// a class whose replay does not reproduce is never reported as a
 			// VIOLATION; it is harness trouble unless another class of this
